@@ -47,6 +47,7 @@ TECHNIQUE = 'bounded symbolic execution (CrossHair+z3) of the converters on shap
 
 ENG0 = yq.ENG
 ROOT = yq.ROOT
+yaql.eval('1')          # build the module-level engine/context of yaql.eval now, outside any symbolic run
 
 
 # ------------------------------------------------------------------ shapes
@@ -490,6 +491,56 @@ def roundtrip_json(a: int, b: str, c: float, flag: bool, shape: int) -> bool:
     return H.done(res == doc and res2 == doc and census_ok(res, True, False) and type(res) is type(doc))
 
 
+# ---- histories: a parsed statement is evaluated again after the host changed its document in place
+MUTATIONS = ['append', 'add-to-set', 'delete-key', 'set-nested', 'clear-list', 'none']
+
+
+def node_of_host(v):
+    """canonical node of a host document (lists and tuples are frozen into tuples by convert_input_data)"""
+    if isinstance(v, dict):
+        return ('dict', [(node_of_host(k), node_of_host(x)) for k, x in v.items()])
+    if isinstance(v, (list, tuple)):
+        return ('tuple', [node_of_host(x) for x in v])
+    if isinstance(v, (set, frozenset)):
+        return ('set', [node_of_host(x) for x in v])
+    return ('leaf', v)
+
+
+def roundtrip_history(mut: int, a: int, t2l: bool, s2l: bool) -> bool:
+    """
+    pre: 0 <= mut < len(MUTATIONS)
+    pre: H.fresh(mut, a, t2l, s2l)
+    post: _
+    """
+    kind = pick(MUTATIONS, mut)
+    doc = {'servers': [a, a + 1], 'tags': {'x', 'y'}, 'meta': {'k': [a]}}
+    eng = engine_with(t2l, s2l)
+    st = expressions.Statement(yq.stmt('$').expression, eng)            # ONE statement object, evaluated twice
+    sub = expressions.Statement(yq.stmt('$.servers.len()').expression, eng)
+    r1 = st.evaluate(data=doc, context=ROOT.create_child_context())
+    n1 = sub.evaluate(data=doc, context=ROOT.create_child_context())
+    ok = match(r1, node_of_host(doc), t2l, s2l) and n1 == 2
+    if kind == 'append':
+        doc['servers'].append(a + 2)
+    elif kind == 'add-to-set':
+        doc['tags'].add('z')
+    elif kind == 'delete-key':
+        del doc['meta']
+    elif kind == 'set-nested':
+        doc['meta']['k'][0] = 'changed'
+    elif kind == 'clear-list':
+        del doc['servers'][:]
+    r2 = st.evaluate(data=doc, context=ROOT.create_child_context())
+    n2 = sub.evaluate(data=doc, context=ROOT.create_child_context())
+    ok = ok and census_ok(r2, t2l, s2l) and match(r2, node_of_host(doc), t2l, s2l) and n2 == len(doc['servers'])
+    # the module-level convenience function caches parsed expressions: same law (library-default options)
+    e1 = yaql.eval('$', data=doc)
+    doc['servers'].append(a)
+    e2 = yaql.eval('$', data=doc)
+    ok = ok and match(e2, node_of_host(doc), True, False) and len(e2['servers']) == len(e1['servers']) + 1
+    return H.done(ok)
+
+
 # ---- probes of listed findings (each restricted to its class)
 PROBE_SHAPES = {
     'C10/mapping-view-unhashable': [('itemsview', 'leaf-int'), ('itemsview-keys', 'leaf-int'), ('keysview', 'tuple'),
@@ -579,6 +630,8 @@ def conditions(tier, seed):
                         'host document %s [ %s [ inner [leaves] ], leaf ]; inner symbolic over %s; symbolic int/str(len<=1) leaves; '
                         't2l, s2l symbolic; via %s' % (outer, mk, ','.join(DOC_KINDS), what),
                         600, outer=outer, via=via, mids=[mi], inners=every, slen=slen)
+    add('roundtrip_history', 'roundtrip_history', 'one parsed statement (and yaql.eval) evaluated before and after the host mutates '
+        'its document in place: %s; symbolic int leaves; t2l, s2l symbolic' % ', '.join(MUTATIONS), 300 if q else 600)
     add('roundtrip_json', 'roundtrip_json', 'six JSON document skeletons with symbolic int/str(len<=3)/float/bool leaves, '
         'library-default engine, both entry points', 120 if q else 400)
     for key in sorted(PROBE_SHAPES):
